@@ -14,6 +14,7 @@ M3f float(symbolic_str)              -> validity decided exactly by pymodels.flo
     value is the exact rational value of the literal (pymodels.py_float), i.e. floats are
     treated as reals: rounding is outside every claim that uses this model.
 """
+import os
 import re
 import sys
 
@@ -239,6 +240,41 @@ def overrides(m1=True):
     for _cls in vars(relib).values():
         if isinstance(_cls, type) and 'groupdict' in vars(_cls):
             _cls.groupdict = _groupdict
+
+    # M13: CrossHair 0.0.110's regex engine treats '$' (without re.MULTILINE) as "end of string" only; in Python it also
+    # matches just before a line feed that ends the string.  The matcher is recompiled from its own source with that case
+    # added (engine defect; selftest_dollar compares the corrected engine with re on the resolver patterns).
+    import inspect
+    import textwrap
+    _src = inspect.getsource(relib._internal_match_patterns)
+    _old = """            if arg is AT_END and re.MULTILINE & flags:
+                with ResumedTracing():
+                    next_char = ord(string[offset])
+                return fork_on(
+                    SymbolicInt._coerce_to_smt_sort(next_char) == ord("\\n"), 0
+                )
+            return None
+"""
+    _new = """            if arg is AT_END and re.MULTILINE & flags:
+                with ResumedTracing():
+                    next_char = ord(string[offset])
+                return fork_on(
+                    SymbolicInt._coerce_to_smt_sort(next_char) == ord("\\n"), 0
+                )
+            if arg is AT_END:
+                if space.smt_fork(SymbolicInt._coerce_to_smt_sort(matchable_len) == 1):
+                    with ResumedTracing():
+                        next_char = ord(string[offset])
+                    return fork_on(
+                        SymbolicInt._coerce_to_smt_sort(next_char) == ord("\\n"), 0
+                    )
+            return None
+"""
+    if not getattr(relib, '_verif_dollar_fixed', False) and not os.environ.get('VERIF_NO_M13'):
+        if _old not in _src:
+            raise RuntimeError('M13: the source of crosshair.libimpl.relib._internal_match_patterns is not the one this model was written for')
+        exec(compile(_src.replace(_old, _new), relib.__file__, 'exec'), vars(relib))
+        relib._verif_dollar_fixed = True
 
     # M7: hasattr/getattr(obj, symbolic_name) on the harness's stand-in modules (objects
     # that list their attribute names in __verif_names__): symbolic comparison with each
